@@ -11,17 +11,18 @@ import (
 )
 
 var monitors = map[string]func(*core.Child){
-	"c02":    codec.C02,
-	"c03":    codec.C03,
-	"c12":    codec.C12,
-	"c13":    codec.C13,
-	"c18":    codec.C18,
-	"c16lib": codec.C16Lib,
-	"c11":    idlmon.C11,
-	"c07":    idlmon.C07,
-	"c09":    idlmon.C09,
-	"c08":    idlmon.C08,
-	"c10":    idlmon.C10,
+	"c02":     codec.C02,
+	"c03":     codec.C03,
+	"c12":     codec.C12,
+	"c13":     codec.C13,
+	"c18":     codec.C18,
+	"c16lib":  codec.C16Lib,
+	"c14wire": codec.C14Wire,
+	"c11":     idlmon.C11,
+	"c07":     idlmon.C07,
+	"c09":     idlmon.C09,
+	"c08":     idlmon.C08,
+	"c10":     idlmon.C10,
 }
 
 func main() { core.ChildMain(monitors) }
